@@ -269,6 +269,30 @@ pub fn build(tier: Tier) -> Check<'static> {
         }));
     }
     {
+        // a region opened in the white space BEHIND A WORD of a declaration: whatever the parser memoised about
+        // that word before it walked over the directive was computed under the other keyword set
+        let pol: Vec<Policy> = policies(Tier::Quick).into_iter().chain([Policy::Fifo(Some(1)), Policy::Fifo(Some(8)), Policy::Fifo(Some(32))]).collect();
+        let lead: Vec<&'static str> = vec!["wire ", "", "var ", "input ", "parameter "];
+        let word: Vec<&'static str> = vec!["logic", "bit", "int", "w"];
+        let tail: Vec<&'static str> = vec![";\n", " x;\n", " [3:0] x;\n", " = 1;\n"];
+        let sp = crate::core::space::Space::of(lead)
+            .product(crate::core::space::Space::of(word))
+            .product(crate::core::space::Space::of(kwprogs::VERSIONS.to_vec()))
+            .product(crate::core::space::Space::of(tail))
+            .product(crate::core::space::Space::of(vec![0usize, 40]))
+            .product(crate::core::space::Space::of(vec![false, true]));
+        c.parts.push(Part::new("keyword-switch-behind-a-word", sp.len(), "5 declaration openers x 4 words (3 of them reserved only in SystemVerilog) x `begin_keywords of 3 versions in the white space directly behind that word x 4 continuations x 0 / 40 filler declarations x region closed or left open (same space in both tiers), under 7 memo policies (capacities 1, 8, 32, 64, 256, 1024, flush every 200)", move |i, acc| {
+            let (((((lead, word), ver), tail), fill), close) = sp.get(i);
+            let mut s = String::from("module m;\n");
+            for k in 0..fill {
+                s.push_str(&format!("wire [7:0] n{};\n", k));
+            }
+            s.push_str(&format!("{}{} `begin_keywords \"{}\"\n{}", lead, word, ver, tail));
+            s.push_str(if close { "endmodule\n`end_keywords\n" } else { "endmodule\n" });
+            one(acc, &s, false, &pol, "keyword region opened behind a word of a declaration");
+        }));
+    }
+    {
         // allow_incomplete = true: the same transparency (kept directives next to comments are where the
         // in_directive bit of the memo key matters)
         let pol: Vec<Policy> = policies(Tier::Quick).into_iter().chain([Policy::Fifo(Some(1)), Policy::Fifo(Some(8)), Policy::Fifo(Some(16))]).collect();
